@@ -32,10 +32,16 @@ ASSUMPTIONS_HANDLERS = [
     '_auth_complete), _process_userauth_request (_auth := None), _finish_userauth (_auth), '
     'SSHClientConnection.try_next_auth (_auth); every call site of the last two that is under contract carries the '
     'obligation "receive encryption is set".  Writers NOT under contract here: SSHConnection.__init__ (all three '
-    'fields start as None / False), send_userauth_success (server side, sets _auth_complete; reachable only from the '
-    'server auth handlers, i.e. behind messages 50..79 that the gate admits only with receive encryption), '
-    '_cleanup / connection_lost (teardown: _auth cancelled, nothing dispatched afterwards).  _recv_encryption is never '
-    'reset to None (writer scan: __init__ and _process_newkeys only)',
+    'fields start as None / False), _cleanup / connection_lost (teardown: _auth cancelled, nothing dispatched '
+    'afterwards).  send_userauth_success (server side, sets _auth_complete, clears _auth) is under contract with '
+    'the precondition "receive keys exist"; its call site in _finish_userauth carries that as an obligation, its '
+    'other call site (auth.py ServerAuth.send_success) is not under contract: it runs inside an auth method handler, '
+    'i.e. behind a message 50..79 that the gate admits only with receive encryption.  _recv_encryption is never '
+    'reset to None (writer scan: __init__ and _process_newkeys only).  Writer scan of the three fields (grep '
+    '`self._auth =`, `self._auth_complete =`, `self._recv_encryption =` in connection.py): __init__, '
+    '_process_newkeys, send_userauth_success, _process_userauth_request, _finish_userauth, _process_userauth_success, '
+    'try_next_auth, _cleanup, send_userauth_failure (`_auth = None` only: it can only make the antecedent of A1 '
+    'false) - all listed here',
     '_wait == "auth_methods" only on client connections (the value comes from the constructor argument `wait`; it is '
     'passed only by get_server_auth_methods(), which builds an SSHClientConnection)',
 ]
@@ -541,6 +547,117 @@ finish_userauth = finish(Spec(
     requires=W_REQUIRES,
     always=[('A1,A2-hold-afterwards;receive-keys-kept', enc_kept)]))
 finish_userauth.no_replay = True       # coroutine with awaited collaborators
+
+
+# ------------------------------------------------------------------------------------------------ send_userauth_success
+# (server side writer of _auth_complete: A2 needs receive keys at that moment; its call site in _finish_userauth
+# carries that as a pre-at-call obligation, the other one - auth.py ServerAuth.send_success - runs inside an auth
+# method handler, i.e. behind a message 50..79 that the gate admits only with receive keys)
+def send_userauth_success_stub(cx):
+    enc = cx.selff('_recv_encryption')
+    cx.require('A2:receive-encryption-set-before-_auth_complete-is-written',
+               z3.Not(enc.isnone) if isinstance(enc, VOpt) else z3.BoolVal(enc is not VNone))
+    decl = cx.ex.spec.classes[cx.st.rec(cx.ex.self_ref).cls]
+    return [Out(ret=cx.fresh('any', 'sent_success'),
+                sets={f: cx.fresh(decl[f], 'mod_' + f) for f in ('_auth_complete', '_auth_in_progress')},
+                event=('send_userauth_success', ()))]
+
+
+send_userauth_success_stub.modifies = ('_auth_complete', '_auth_in_progress')
+finish_userauth.stubs['self.send_userauth_success'] = send_userauth_success_stub
+
+send_userauth_success = finish(Spec(
+    'C06', 'connection', 'SSHConnection.send_userauth_success', self_class='SSHConnection', classes=CLASSES,
+    truthy=PACKET_TRUTHY, falsy_sorts={'Any'},
+    stubs=dict(US_STUBS, **{'self.send_packet': noop('send_packet'), 'self._owner.auth_completed': ret('any', 'completed'),
+                            '*.send_server_host_keys': noop('host_keys')}),
+    requires=W_REQUIRES,
+    always=[('A1,A2-hold-afterwards;receive-keys-kept', enc_kept)]))
+send_userauth_success.no_replay = True       # coroutine with awaited collaborators; _acceptor is a plain attribute
+
+
+# ------------------------------------------------------------------------------------------------ kex method messages: role
+# "a message only the other role may send never takes effect": who sends which key-exchange method message is fixed
+# by the RFCs - the handler of a message the CLIENT sends may run only on a server and vice versa:
+#   RFC 4253 8      KEXDH_INIT / ECDH_INIT   c -> s      KEXDH_REPLY / ECDH_REPLY   s -> c
+#   RFC 4419 3      KEX_DH_GEX_REQUEST(_OLD) c -> s      KEX_DH_GEX_GROUP           s -> c   (GEX_INIT / GEX_REPLY share
+#                                                                                        the DH init / reply handlers)
+#   RFC 4432 4      KEXRSA_PUBKEY  s -> c    KEXRSA_SECRET  c -> s    KEXRSA_DONE  s -> c
+#   RFC 4462 2.1    KEXGSS_INIT    c -> s    KEXGSS_COMPLETE  s -> c  KEXGSS_ERROR s -> c
+# (KEXGSS_CONTINUE goes both ways, KEXGSS_HOSTKEY is guarded by a state flag: not role checks, not covered here.)
+# Region contract = everything up to and including the first `if`: falling through means the role was right, the
+# wrong role is a ProtocolError before the packet is read or anything else happens.
+KEX_ROLE_TABLE = [
+    # module, class, handler, the role that may RECEIVE the message
+    ('kex_dh', '_KexDHBase', '_process_init', 'server'),
+    ('kex_dh', '_KexDHBase', '_process_reply', 'client'),
+    ('kex_dh', '_KexDHGex', '_process_request', 'server'),
+    ('kex_dh', '_KexDHGex', '_process_group', 'client'),
+    ('kex_dh', '_KexGSSBase', '_process_gss_init', 'server'),
+    ('kex_dh', '_KexGSSBase', '_process_complete', 'client'),
+    ('kex_dh', '_KexGSSBase', '_process_error', 'client'),
+    ('kex_rsa', '_KexRSA', '_process_pubkey', 'client'),
+    ('kex_rsa', '_KexRSA', '_process_secret', 'server'),
+    ('kex_rsa', '_KexRSA', '_process_done', 'client'),
+]
+
+
+def conn_role_stub(want_client):
+    def stub(cx):
+        r = cx.ex.get_field(cx.st, cx.recv, '_is_client')
+        return VBool(r.z if want_client else z3.Not(r.z))
+    stub.modifies = ()
+    return stub
+
+
+def kex_role_region(fn):
+    for i, st_ in enumerate(fn.body):
+        if isinstance(st_, ast.If):
+            return fn.body[:i + 1]
+    raise Unsupported(f'{fn.name}: no role check')
+
+
+def _kex_role_spec(module, cls, meth, receiver):
+    def on_client(c):
+        return c.old('_is_client', c.oldv('_conn'))
+    right = (lambda c: on_client(c)) if receiver == 'client' else (lambda c: z3.Not(on_client(c)))
+    sp = finish(HSpec(
+        'C06', module, f'{cls}.{meth}', self_class=cls,
+        params=dict(_pkttype='int', _pktid='int', pkttype='int', packet='obj:SSHPacket'),
+        classes=dict(PACKET_CLASSES, **{cls: {'_conn': 'obj:Conn'}, 'Conn': {'_is_client': 'bool'}}),
+        truthy=PACKET_TRUTHY, inline=dict(PACKET_INLINE), region=kex_role_region,
+        stubs={'self._conn.is_client': conn_role_stub(True), 'self._conn.is_server': conn_role_stub(False)},
+        ensures=[(f'handled-only-by-the-{receiver}', right)],
+        always=[('role-check-precedes-every-effect', lambda c: z3.And(
+            z3.BoolVal(all(x['key'].endswith(('.is_client', '.is_server')) for x in c.calls())),
+            pkt(c, new=True)['_idx'].z == pkt(c)['_idx'].z))],
+        raises={'ProtocolError': lambda c: z3.Not(right(c))}))
+    sp.tag = 'role-check'
+    sp.no_replay = True
+    return sp
+
+
+def _kex_params(sp):
+    """handlers name their first parameter _pkttype or pkttype: keep only the names the real signature has"""
+    from pyvc import extract
+    fn = extract.get_module(sp.module).get_function(sp.qualname)
+    names = {a.arg for a in fn.args.args}
+    sp.params = {k: v for k, v in sp.params.items() if k in names}
+    return sp
+
+
+KEX_ROLE_SPECS = [_kex_params(_kex_role_spec(*row)) for row in KEX_ROLE_TABLE]
+
+
+# ------------------------------------------------------------------------------------------------ strict kex: SEND counter
+# "both sequence numbers restart at NEWKEYS": the receive half is _finish_recv_packet (c06.py); the send half is the
+# C06 view of send_packet below - the same function, stubs and case split as the C11 / C02 contracts (c11.py), with
+# the one clause this property needs.  (Imported last: c11 -> c11_kexinit import names from this module.)
+from . import c11 as _c11      # noqa: E402
+
+send_packet_strict = _c11._mk_send_packet(
+    'C06', ensures=[('strict-kex:send-sequence-number-restarts-at-NEWKEYS-and-only-there', _c11.strict_send_seq_reset)],
+    always=[])
 
 
 def extra_checks(tier, seed):
